@@ -1,6 +1,6 @@
 # C07 spec (see tools/props.py)
 SPEC = {
-        "ready": False,
+        "ready": True,
         "sources": ["c07.cpp", "c07_vec.cpp", "c07_inv.cpp", "c07_frustum.cpp", "c07_algo.cpp"],
         "lib": ["ImathMatrixAlgo.cpp"],
         "technique": "differential exhaustive enumeration: every checked/unchecked pair run on the same input over guard-threshold alphabets (both sides of every guard, to the ulp), integer lattices x power-of-two scalings, permuted-diagonal boundary matrices and exponent sweeps",
